@@ -745,7 +745,7 @@ def validate(ctx, recs, tag):
         vlib.write_ndjson(f, sh)
         files.append((f, len(sh)))
     for f, n in files:
-        r = ctx.tlc("C16Trace", "C16Trace.cfg", env={"VERIF_RECS": f}, workers=vlib.NCPU, timeout=3000, heap="12g", tag="v-" + f[-16:-7])
+        r = ctx.tlc("C16Trace", "C16Trace.cfg", env={"VERIF_RECS": f}, workers=vlib.NCPU, timeout=3000, heap="12g", tag="v-" + os.path.basename(f)[:-7])
         got = re.findall(r'<<"CHECKED", (\d+)>>', r["out"])
         if r["error"] or r["rc"] != 0 or not got or int(got[0]) != n:
             raise vlib.MachineryError("TLC failed on %s:\n%s" % (f, r["out"][-3000:]))
@@ -778,9 +778,9 @@ def run(ctx):
     rnd = random.Random(ctx.seed)
     # (C16_SKIP_DESIGN=1 skips the repository-independent design check: used by the sensitivity runs of tools/mutate.py only)
     mc = design_check(ctx) if not os.environ.get("C16_SKIP_DESIGN") else {}
-    nprog = 2000 if ctx.quick else 30000
+    nprog = 2000 if ctx.quick else 24000
     max_refsem_weight = 400
-    cases, heavy_refsem, nrefsem, refsem_cap = [], 0, 0, (10 ** 9 if ctx.quick else 9000)
+    cases, heavy_refsem, nrefsem, refsem_cap = [], 0, 0, (10 ** 9 if ctx.quick else 7000)
     for i in range(nprog):
         c = make_case(rnd, i + 1)
         # RefSem is evaluated on the programs that may be inside its fragment (a bounded number of them in the thorough tier,
